@@ -78,6 +78,85 @@ func loadAxioms() {
 		if err != "" {
 			fatal("contract error in axiom %s: %s", ax.Where, err)
 		}
-		globalAxioms = append(globalAxioms, t)
+		// an axiom about ghost predicates (Bool-valued ghost functions) is added only to the queries of
+		// functions whose conditions mention every such predicate: the rest of the system never sees it
+		var preds []string
+		seenT := map[int]bool{}
+		var walk func(x *Term)
+		walk = func(x *Term) {
+			if seenT[x.id] {
+				return
+			}
+			seenT[x.id] = true
+			if g, ok := specs.Ghosts[x.Op]; ok && g.Res == "Bool" {
+				dup := false
+				for _, q := range preds {
+					if q == x.Op {
+						dup = true
+					}
+				}
+				if !dup {
+					preds = append(preds, x.Op)
+				}
+			}
+			for _, a := range x.Args {
+				walk(a)
+			}
+		}
+		walk(t)
+		if len(preds) == 0 {
+			globalAxioms = append(globalAxioms, t)
+		} else {
+			scopedAxioms = append(scopedAxioms, scopedAxiom{t, preds})
+		}
 	}
+}
+
+type scopedAxiom struct {
+	t     *Term
+	preds []string
+}
+
+var scopedAxioms []scopedAxiom
+
+// scopedAxiomsFor: the predicate-scoped axioms relevant to a set of events.
+func scopedAxiomsFor(events []Event) []*Term {
+	if len(scopedAxioms) == 0 {
+		return nil
+	}
+	ops := map[string]bool{}
+	seenT := map[int]bool{}
+	var walk func(x *Term)
+	walk = func(x *Term) {
+		if x == nil || seenT[x.id] {
+			return
+		}
+		seenT[x.id] = true
+		if _, ok := specs.Ghosts[x.Op]; ok {
+			ops[x.Op] = true
+		}
+		for _, a := range x.Args {
+			walk(a)
+		}
+	}
+	for _, e := range events {
+		walk(e.Assume)
+		if e.Obl != nil {
+			walk(e.Obl.Guard)
+			walk(e.Obl.Goal)
+		}
+	}
+	var out []*Term
+	for _, a := range scopedAxioms {
+		ok := true
+		for _, p := range a.preds {
+			if !ops[p] {
+				ok = false
+			}
+		}
+		if ok {
+			out = append(out, a.t)
+		}
+	}
+	return out
 }
